@@ -22,7 +22,7 @@ TRUSTED = ["A-deque (append / popleft / remove first occurrence / clear)", "cont
            "inner Client contract: a raising call leaves that client's socket closed and dropped (C01, C06)", "monotone ghost clock"]
 ASSUMPTIONS = ["after_remove is Client.close (never raises; C06) or None", "the lock provides mutual exclusion (see C08); this property is sequential"]
 NOT_COVERED = ["exits by non-Exception BaseException (C10)", "FIFO order of the free list beyond 'first non-expired object is reused'"]
-BUDGET = {"quick": 30, "thorough": 120}
+BUDGET = {"quick": 40, "thorough": 120}
 REPLAY_UNDECIDED = True
 DEPENDS = ["C01"]      # "a connection on which a call failed is closed": the inner Client's contract (a raising exit after the exchange
                        # started leaves the socket closed and dropped) is C01's; it is re-proved in this run
